@@ -1,9 +1,501 @@
+// gen.go: history generator. Histories are generated ADAPTIVELY: the generator executes each operation it
+// chooses on a real engine world (so that it knows which allocations are open, which challenges exist, what an
+// allocation costs) and records, after ';', the observed status and amounts of that execution in the operation line.
+// The Lean model driver replays the line with those observed amounts (relational step); the implementation run of
+// the correspondence executes the operations again from a fresh world and must observe the same.
 package main
 
-import "math/rand"
+import (
+	"fmt"
+	"math/rand"
+	"strings"
+	"sync"
+)
 
-func gen(prop string) func(r *rand.Rand, thorough bool, i int) []string {
-	return func(r *rand.Rand, thorough bool, i int) []string { return []string{"init x 1"} }
+type genState struct {
+	x        *world
+	r        *rand.Rand
+	ops      []string
+	prop     string
+	blobbers []int // registered
+	dead     map[int]bool
+	vals     []int
+	chal     map[[2]int]int // (alloc, blobber) -> open challenges the generator knows of
 }
 
-var fixedCases [][]string
+func (g *genState) do(format string, a ...interface{}) []string {
+	line := fmt.Sprintf(format, a...)
+	op := strings.Fields(line)
+	g.x.hist += strings.Join(op, " ") + "\n"
+	res := g.x.run(op)
+	g.ops = append(g.ops, line+" ; "+res)
+	return strings.Fields(res)
+}
+
+// chalKeys: (allocation, blobber) pairs with an open challenge, in a fixed order.
+func (g *genState) chalKeys() [][2]int {
+	var keys [][2]int
+	for k, n := range g.chal {
+		if n > 0 {
+			keys = append(keys, k)
+		}
+	}
+	for i := range keys {
+		for j := i + 1; j < len(keys); j++ {
+			if keys[j][0] < keys[i][0] || keys[j][0] == keys[i][0] && keys[j][1] < keys[i][1] {
+				keys[i], keys[j] = keys[j], keys[i]
+			}
+		}
+	}
+	return keys
+}
+
+func (g *genState) pick(xs []int) int { return xs[g.r.Intn(len(xs))] }
+
+var sizes = []int64{1 << 20, 1<<20 + 1, 3 << 20, 5<<20 + 3, 64 << 20, 1 << 30, 1<<30 + 7, 10 << 30}
+var prices = []uint64{1e7, 1e8, 1e9, 1e9, 2e9, 3e9 + 1, 1e10}
+
+func (g *genState) openAllocs() []int {
+	s := g.x.snapshot()
+	var ks []int
+	for k, a := range s.S.Allocs {
+		if a.Present {
+			ks = append(ks, k)
+		}
+	}
+	return ks
+}
+
+func (g *genState) alive() []int {
+	var out []int
+	for _, b := range g.blobbers {
+		if !g.dead[b] {
+			out = append(out, b)
+		}
+	}
+	return out
+}
+
+func (g *genState) setup() {
+	r := g.r
+	nb := 3 + r.Intn(nBlobbers-2)
+	for i := 0; i < nb; i++ {
+		cap := int64(100) << 30
+		if r.Intn(4) == 0 {
+			cap = 11<<30 + int64(r.Intn(1<<20))
+		}
+		g.do("addb %d %d %d %d %d %d", i, cap, prices[r.Intn(len(prices))], uint64(1e8), r.Intn(nClients), []int{0, 100, 250, 500}[r.Intn(4)])
+		g.blobbers = append(g.blobbers, i)
+		st := uint64(1000e10)
+		if r.Intn(5) == 0 {
+			st = uint64(1+r.Intn(30)) * 1e10
+		}
+		g.do("stake b %d %d %d", i, r.Intn(nClients), st)
+		if r.Intn(3) == 0 {
+			g.do("stake b %d %d %d", i, r.Intn(nClients), uint64(1+r.Intn(50))*1e10)
+		}
+	}
+	nv := 3 + r.Intn(2)
+	if r.Intn(10) == 0 {
+		nv = r.Intn(3) // too few validators: challenges cannot be generated
+	}
+	for i := 0; i < nv; i++ {
+		g.do("addv %d %d", i, r.Intn(nClients))
+		g.vals = append(g.vals, i)
+		if r.Intn(8) != 0 {
+			g.do("stake v %d %d %d", i, r.Intn(nClients), uint64(2+r.Intn(20))*1e10)
+		}
+	}
+}
+
+func (g *genState) newAlloc() {
+	r := g.r
+	al := g.alive()
+	if len(al) < 2 {
+		return
+	}
+	r.Shuffle(len(al), func(i, j int) { al[i], al[j] = al[j], al[i] })
+	data := 1 + r.Intn(3)
+	parity := 1 + r.Intn(2)
+	if data+parity > len(al) {
+		data, parity = 1, 1
+	}
+	n := data + parity
+	if r.Intn(4) == 0 && n < len(al) {
+		n++ // one spare blobber in the request
+	}
+	size := sizes[r.Intn(len(sizes))]
+	// cost = sum price * sizeGB over the chosen blobbers
+	s := g.x.snapshot()
+	var cost float64
+	bsz := float64((size + int64(data) - 1) / int64(data))
+	for _, b := range al[:data+parity] {
+		cost += float64(s.S.Blobbers[b].WritePrice) * bsz / GiB
+	}
+	value := uint64(cost) + 1
+	switch r.Intn(6) {
+	case 0:
+		value = uint64(cost * 3)
+	case 1:
+		value = uint64(cost) + uint64(r.Intn(1000))
+	case 2:
+		if value > 2 {
+			value = value / 2 // underfunded: must fail
+		}
+	}
+	var bl []string
+	for _, b := range al[:n] {
+		bl = append(bl, fmt.Sprint(b))
+	}
+	g.do("newa %d %d %d %d %d %s", r.Intn(nClients), data, parity, size, value, strings.Join(bl, ","))
+}
+
+func (g *genState) step() {
+	r := g.r
+	x := g.x
+	open := g.openAllocs()
+	s := x.snapshot()
+	w := r.Intn(100)
+	bias := map[string]int{"C12": 0, "C13": 1, "C14": 2, "C09": 3}[g.prop]
+	switch {
+	case w < 8 || len(open) == 0 && w < 40:
+		if len(x.allocs) < 4 {
+			g.newAlloc()
+			return
+		}
+		g.do("tick %d %d 1", 600+r.Intn(7200), 1+r.Intn(5))
+	case w < 30 && len(open) > 0: // upload / delete
+		k := g.pick(open)
+		a := s.S.Allocs[k]
+		d := a.BAs[r.Intn(len(a.BAs))]
+		bi := x.blobIdx(d.BlobberID)
+		var sz int64
+		switch r.Intn(6) {
+		case 0:
+			sz = -(d.UsedSize / int64(1+r.Intn(3)))
+		case 1:
+			sz = d.Size - d.UsedSize // fill completely
+		case 2:
+			sz = d.Size - d.UsedSize + 1 // exceeds
+		case 3:
+			sz = int64(1 + r.Intn(70000))
+		default:
+			room := d.Size - d.UsedSize
+			if room > 0 {
+				sz = 1 + r.Int63n(room)
+			}
+		}
+		g.do("commit %d %d %d", k, bi, sz)
+	case w < 40: // time
+		switch r.Intn(10) {
+		case 0:
+			g.do("tick %d %d %d", 31*86400, 1+r.Intn(5), r.Intn(2)) // beyond expiry
+		case 1:
+			g.do("tick %d %d 1", 3600, 1300) // challenge completion rounds exceeded
+		case 2, 3:
+			g.do("tick %d %d 1", 86400*(1+r.Intn(12)), 1+r.Intn(40))
+		default:
+			g.do("tick %d %d 1", 600+r.Intn(7200), 1+r.Intn(5))
+		}
+	case w < 52 && len(open) > 0: // a challenge round: generate a few, answer most of them
+		n := 1 + r.Intn(3)
+		for t := 0; t < n; t++ {
+			res := g.do("genc")
+			if len(res) == 2 && res[0] == "ok" && res[1] != "none" {
+				var k, b int
+				fmt.Sscanf(res[1], "%d:%d", &k, &b)
+				g.chal[[2]int{k, b}]++
+			}
+		}
+		for _, kb := range g.chalKeys() {
+			if r.Intn(4) == 0 {
+				continue
+			}
+			verdict := "pass"
+			if r.Intn(5) == 0 {
+				verdict = "fail"
+			}
+			g.do("resp %d %d %s", kb[0], kb[1], verdict)
+			g.chal[kb] = 0
+		}
+	case w < 58 && len(g.chal) > 0:
+		keys := g.chalKeys()
+		if len(keys) == 0 {
+			g.do("genc")
+			return
+		}
+		kb := keys[r.Intn(len(keys))]
+		verdict := "pass"
+		if r.Intn(4) == 0 {
+			verdict = "fail"
+		}
+		g.do("resp %d %d %s", kb[0], kb[1], verdict)
+		g.chal[kb] = 0 // answering the newest one retires the older ones
+	case w < 70+3*b2i(bias == 1) && len(open) > 0: // update allocation
+		k := g.pick(open)
+		a := s.S.Allocs[k]
+		owner := 0
+		for j, c := range x.cli {
+			if c.ID == a.Owner {
+				owner = j
+			}
+		}
+		caller := fmt.Sprintf("c%d", owner)
+		if r.Intn(8) == 0 {
+			caller = fmt.Sprintf("c%d", r.Intn(nClients)) // third party
+		}
+		in := map[int]bool{}
+		for _, d := range a.BAs {
+			in[x.blobIdx(d.BlobberID)] = true
+		}
+		var cand []int
+		for _, b := range g.alive() {
+			if !in[b] {
+				cand = append(cand, b)
+			}
+		}
+		add, rem := "-", "-"
+		size, ext := int64(0), 0
+		value := uint64(0)
+		switch m := r.Intn(10); {
+		case m < 3: // extend
+			ext = 1
+			if r.Intn(2) == 0 {
+				size = sizes[r.Intn(len(sizes))] / int64(1+r.Intn(4))
+			}
+		case m < 5 && len(cand) > 0: // add
+			add = fmt.Sprint(g.pick(cand))
+			if r.Intn(3) == 0 {
+				ext = 1
+			}
+		case m < 9 && len(cand) > 0: // replace
+			add = fmt.Sprint(g.pick(cand))
+			d := a.BAs[r.Intn(len(a.BAs))]
+			rem = fmt.Sprint(x.blobIdx(d.BlobberID))
+			// prefer a dead one if there is one
+			for _, e := range a.BAs {
+				if g.dead[x.blobIdx(e.BlobberID)] && r.Intn(4) != 0 {
+					rem = fmt.Sprint(x.blobIdx(e.BlobberID))
+				}
+			}
+			if r.Intn(4) == 0 {
+				ext = 1
+			}
+		default:
+			size = int64(r.Intn(3)) * (1 << 20)
+			ext = r.Intn(2)
+		}
+		if r.Intn(2) == 0 {
+			// enough to cover any new cost
+			var cost float64
+			for _, d := range a.BAs {
+				cost += float64(d.WritePrice) * float64(d.Size+size) / GiB
+			}
+			value = uint64(cost*2) + 1e9
+		} else if r.Intn(3) == 0 {
+			value = uint64(r.Intn(1e9))
+		}
+		g.do("upd %d %s %d %d %d %s %s", k, caller, value, size, ext, add, rem)
+	case w < 72+2*b2i(bias != 2): // kill / shutdown
+		al := g.blobbers
+		if len(al) == 0 {
+			return
+		}
+		b := g.pick(al)
+		switch r.Intn(8) {
+		case 0:
+			if len(g.vals) > 0 {
+				g.do("kill v %d", g.pick(g.vals))
+			}
+		case 1:
+			g.do("shut b %d", b)
+			g.dead[b] = true
+		default:
+			// blobbers serving an open allocation are the interesting ones
+			for _, k := range open {
+				for _, d := range s.S.Allocs[k].BAs {
+					if r.Intn(3) == 0 {
+						b = x.blobIdx(d.BlobberID)
+					}
+				}
+			}
+			g.do("kill b %d", b)
+			g.dead[b] = true
+		}
+	case w < 90+4*b2i(bias == 2): // close
+		k := 0
+		if len(x.allocs) > 0 {
+			k = r.Intn(len(x.allocs))
+		}
+		if len(open) > 0 && r.Intn(3) != 0 {
+			k = g.pick(open)
+		}
+		caller := fmt.Sprintf("c%d", r.Intn(nClients))
+		if k < len(s.S.Allocs) && s.S.Allocs[k].Present {
+			a := s.S.Allocs[k]
+			switch r.Intn(4) {
+			case 0, 1:
+				for j, c := range x.cli {
+					if c.ID == a.Owner {
+						caller = fmt.Sprintf("c%d", j)
+					}
+				}
+			case 2:
+				caller = fmt.Sprintf("b%d", x.blobIdx(a.BAs[r.Intn(len(a.BAs))].BlobberID))
+			}
+		} else if r.Intn(3) == 0 && len(g.blobbers) > 0 {
+			caller = fmt.Sprintf("b%d", g.pick(g.blobbers))
+		}
+		verb := "fin"
+		if r.Intn(2) == 0 {
+			verb = "cancel"
+		}
+		if verb == "fin" && k < len(s.S.Allocs) && s.S.Allocs[k].Present && s.S.Allocs[k].Expiration > x.now() && r.Intn(2) == 0 {
+			g.do("tick %d %d %d", s.S.Allocs[k].Expiration-x.now()+int64(r.Intn(3)), 1+r.Intn(3), 1)
+		}
+		g.do("%s %d %s", verb, k, caller)
+		if r.Intn(3) == 0 { // and again
+			g.do("%s %d %s", []string{"fin", "cancel"}[r.Intn(2)], k, caller)
+		}
+	default:
+		switch r.Intn(9) {
+		case 0, 1:
+			k := 0
+			if len(x.allocs) > 0 {
+				k = r.Intn(len(x.allocs) + 1)
+			}
+			g.do("wpl %d %d %d", k, r.Intn(nClients), []uint64{1e9, 5e9, 1e9 - 1, 123456789012, 0}[r.Intn(5)])
+		case 2:
+			g.do("rpl %d %d", r.Intn(nClients), []uint64{1e9, 1, 0, 7e10}[r.Intn(4)])
+		case 3:
+			g.do("rpu %d", r.Intn(nClients))
+		case 4, 5:
+			if r.Intn(3) == 0 && len(g.vals) > 0 {
+				g.do("collect v %d %d", g.pick(g.vals), r.Intn(nClients))
+			} else if len(g.blobbers) > 0 {
+				g.do("collect b %d %d", g.pick(g.blobbers), r.Intn(nClients))
+			}
+		case 6:
+			if len(g.blobbers) > 0 {
+				g.do("unstake b %d %d", g.pick(g.blobbers), r.Intn(nClients))
+			}
+		case 7:
+			if len(g.blobbers) > 0 {
+				g.do("stake b %d %d %d", g.pick(g.blobbers), r.Intn(nClients), uint64(1+r.Intn(100))*1e10)
+			}
+		case 8:
+			if len(g.blobbers) > 0 {
+				b := g.pick(g.blobbers)
+				capS, wpS := "-", "-"
+				if r.Intn(2) == 0 {
+					capS = fmt.Sprint(int64(11+r.Intn(200)) << 30)
+				}
+				if r.Intn(3) != 0 {
+					wpS = fmt.Sprint(prices[r.Intn(len(prices))])
+				}
+				g.do("updb %d %s %s", b, capS, wpS)
+			}
+		}
+	}
+}
+
+func gen(prop string) func(r *rand.Rand, thorough bool, i int) []string {
+	return func(r *rand.Rand, thorough bool, i int) []string {
+		tag := fmt.Sprintf("g%d-%d", r.Int63(), i)
+		init := fmt.Sprintf("init %s 1", tag)
+		x, err := newWorld(tag, true)
+		if err != nil {
+			return []string{init}
+		}
+		g := &genState{x: x, r: r, ops: []string{init}, prop: prop, dead: map[int]bool{}, chal: map[[2]int]int{}}
+		g.setup()
+		g.newAlloc()
+		n := 25 + r.Intn(40)
+		if thorough {
+			n = 40 + r.Intn(160)
+		}
+		for k := 0; k < n; k++ {
+			g.step()
+		}
+		// close everything that is still open, owner first after expiry (so that every history exercises a close)
+		if r.Intn(3) != 0 {
+			for _, k := range g.openAllocs() {
+				s := x.snapshot()
+				a := s.S.Allocs[k]
+				own := 0
+				for j, c := range x.cli {
+					if c.ID == a.Owner {
+						own = j
+					}
+				}
+				if r.Intn(2) == 0 {
+					g.do("cancel %d c%d", k, own)
+				} else {
+					if a.Expiration > x.now() {
+						g.do("tick %d 2 1", a.Expiration-x.now()+1)
+					}
+					g.do("fin %d c%d", k, own)
+				}
+				g.do("wpl %d %d 1000000000", k, own)
+			}
+		}
+		return g.ops
+	}
+}
+
+// scripts: fixed histories that run before the generated ones — the replays of the Lean negation witnesses on the
+// real code, the confirmed findings, boundary cases, and a malformed stream. They are annotated with the observed
+// amounts at start-up (same execution path as the generated histories).
+var scripts = [][]string{
+	// replace-killed: C12/C13/C09 witness (Props/C12 `cp_eq_sum_false`): replace a killed blobber, then cancel
+	{"init fx-replace-killed 1",
+		"addb 0 107374182400 1000000000 100000000 0 100", "addb 1 107374182400 1000000000 100000000 1 100", "addb 2 107374182400 2000000000 100000000 2 100",
+		"addv 0 0", "addv 1 1", "addv 2 2",
+		"stake b 0 0 1000000000000", "stake b 1 1 1000000000000", "stake b 2 2 1000000000000",
+		"stake v 0 3 100000000000", "stake v 1 3 100000000000", "stake v 2 3 100000000000",
+		"newa 3 1 1 1073741824 100000000000 0,1", "commit 0 0 104857600", "commit 0 1 104857600", "tick 3600 5 1",
+		"wpl 0 3 5000000000", "upd 0 c3 0 1073741824 1 - -", "kill b 1", "upd 0 c3 0 0 0 2 1",
+		"cancel 0 c2", "cancel 0 c3", "cancel 0 c3", "wpl 0 3 5000000000", "fin 0 c3", "commit 0 0 1024"},
+	// challenges: pass, fail, penalty after a failed one, delete, collect, finalize by a blobber, second finalize
+	{"init fx-challenges 1",
+		"addb 0 107374182400 1000000000 100000000 0 100", "addb 1 107374182400 1000000000 100000000 1 100", "addb 2 107374182400 2000000000 100000000 2 100",
+		"addv 0 0", "addv 1 1", "addv 2 2",
+		"stake b 0 0 1000000000000", "stake b 1 1 1000000000000", "stake b 2 2 1000000000000",
+		"stake v 0 3 100000000000", "stake v 1 3 100000000000", "stake v 2 3 100000000000",
+		"newa 3 1 1 1073741824 100000000000 0,1", "commit 0 0 104857600", "commit 0 1 104857600",
+		"tick 86400 5 1", "genc", "resp 0 0 pass", "resp 0 1 pass",
+		"tick 86400 5 1", "genc", "resp 0 0 fail", "resp 0 1 fail",
+		"tick 86400 5 1", "genc", "genc", "genc", "resp 0 0 pass", "resp 0 1 pass",
+		"commit 0 0 -52428800", "collect b 0 0", "collect v 0 0", "collect v 0 3",
+		"tick 2592000 5 1", "fin 0 b1", "fin 0 c3"},
+	// rekill: a second kill_blobber zeroes TotalOffers; the allocation can no longer be closed (C13 finding)
+	{"init fx-rekill 1",
+		"addb 0 107374182400 1000000000 100000000 0 100", "addb 1 107374182400 1000000000 100000000 1 100",
+		"stake b 0 0 1000000000000", "stake b 1 1 1000000000000",
+		"newa 3 1 1 1073741824 100000000000 0,1", "kill b 1", "kill b 1", "cancel 0 c3",
+		"tick 2678400 2 1", "fin 0 c3", "fin 0 b0", "unstake b 1 1"},
+	// closing exactly at the expiration second: both cancel and finalize are admitted by the code
+	{"init fx-boundary 1",
+		"addb 0 107374182400 1000000000 100000000 0 0", "addb 1 107374182400 1000000000 100000000 1 0",
+		"stake b 0 0 1000000000000", "stake b 1 1 1000000000000",
+		"newa 2 1 1 1048577 1000000000 0,1", "newa 2 1 1 1048577 1000000000 0,1",
+		"tick 2591999 1 1", "fin 0 c2", "tick 1 1 1", "fin 0 c1", "fin 0 c2", "cancel 1 c2", "cancel 1 c2", "rpl 2 1000000000", "rpu 2", "rpu 2"},
+	// malformed stream: both sides must answer bad-op and keep their state
+	{"init fx-malformed 1", "addb 0 107374182400 1000000000 100000000 0 100", "frobnicate 1 2", "commit 0", "addb 9 1 1 1 0 0",
+		"addb x 1 1 1 0 0", "stake q 0 0 5", "newa 0 1 1 1048576 5 0,7", "upd 0 z3 0 0 0 - -", "fin 0", "fin 0 c9", "tick 1 1 2",
+		"commit 0 0 99999999999999999999", "resp 0 0 maybe", "shut v 0", "wpl 0 4 1", "stake b 0 0 10000000000", ""},
+}
+
+var (
+	fixedOnce sync.Once
+	fixedMem  [][]string
+)
+
+func fixed() [][]string {
+	fixedOnce.Do(func() {
+		for _, sc := range scripts {
+			fixedMem = append(fixedMem, annotateOps(sc))
+		}
+	})
+	return fixedMem
+}
